@@ -88,6 +88,7 @@ type Case struct {
 	Tables  []TableSpec `json:"tables"`
 	GC      bool        `json:"gc,omitempty"`      // start the graveyard worker (case runs in a synctest bubble)
 	MaxTxns int         `json:"maxTxns,omitempty"` // 1 or 2 concurrently open write transactions
+	EmptyBegin bool     `json:"emptyBegin,omitempty"` // Begin with an empty table list opens a write transaction that holds no table
 	Ops     []Op        `json:"ops"`
 }
 
@@ -591,8 +592,11 @@ func (in *interp) begin(ts []int) *wtxn {
 		metas = append(metas, in.tbls[t])
 		locked[t] = true
 	}
-	if len(metas) == 0 {
+	if len(metas) == 0 && !(len(ts) == 0 && in.c.EmptyBegin) {
 		return nil
+	}
+	if len(metas) == 0 {
+		in.res.class("wtxn_without_tables")
 	}
 	if len(metas) != len(locked) {
 		in.res.class("wtxn_duplicate_tables")
